@@ -241,6 +241,41 @@ func genC20(tier, out string, sum *Summary) {
 				break // the table does not depend on the document: a few repetitions are enough
 			}
 		}
+		// the same rule when the filter is followed by more selectors, in every spelling of a filter projection
+		wdoc := map[string]any{"w": []any{map[string]any{"v": x, "t": "x"}, map[string]any{"v": y, "t": "y"}, map[string]any{"t": "none"}, map[string]any{"v": z, "t": "z"}}}
+		wantT := []any{}
+		for _, p := range []struct {
+			v any
+			t string
+		}{{x, "x"}, {y, "y"}, {z, "z"}} {
+			if !falseLike(p.v) {
+				wantT = append(wantT, p.t)
+			}
+		}
+		for _, fe := range []string{"w[?v].t", "w[?v] | [*].t", "@.w[?v].t", "w[?v || `false`].t", "w[?!(!v)].t", "w[?v && v].t", "(w)[?v].t", "w[*] | [?v].t", "w[?v][].t", "w[?v].{t: t}.t", "w[?v].[t][]", "map(&t, w[?v])", "w[?v] | [?t].t", "w[?@.v].t"} {
+			fo := search(fe, wdoc)
+			sum.count("filter-then-selectors")
+			if fo.Kind != "val" || !sameValue(fo.Value, wantT, false) {
+				sum.direct("truthiness", fe, wdoc, "elements with a true-like v are "+toJSON(wantT)+", got "+describe(fo))
+			}
+		}
+		// computed numbers: equal in value whatever scale the computation left them in
+		if i < 4 {
+			for _, pr := range [][2]string{{"`1.5` + `1.5`", "`1` + `2`"}, {"`2.50` * `2`", "`5`"}, {"`1` - `1`", "`0.00` * `3`"}, {"`10` / `4`", "`2.5`"}, {"`7.0` // `2`", "`3`"}, {"`7.5` % `2`", "`1.50`"}, {"- `2.0`", "`-2`"}, {"abs(`-3.000`)", "`3`"}, {"sum(`[0.5, 0.5]`)", "`1`"}, {"avg(`[1, 2]`)", "`1.5`"}, {"`1e2` + `0`", "`100`"}, {"`100` * `0.01`", "`1`"}, {"ceil(`1.5`)", "`2.0` + `0`"}, {"to_number('5.00') + `0`", "`5`"}, {"`0` * `-1`", "`0`"}} {
+				for _, form := range []string{"(%s) == (%s)", "!((%s) != (%s))", "contains([%s], %s)", "[%s] == [%s]", "{k: %s} == {k: %s}", "[[%s]] == [[%s]]", "(%s) <= (%s) && (%[2]s) <= (%[1]s)", "length([%s, %s][?@ == (%[1]s)]) == `2`", "sort([%s, %s])[0] == (%[2]s)", "[{n: %s}][?n == (%s)] | length(@) == `1`"} {
+					e := fmt.Sprintf(form, pr[0], pr[1])
+					o := search(e, map[string]any{})
+					sum.count("computed-equality")
+					if b, ok := boolOf(o); !ok || !b {
+						sum.direct("equality", e, nil, "computed numbers of equal value must be equal: "+describe(o))
+					}
+					e2 := fmt.Sprintf(form, pr[1], pr[0])
+					if b, ok := boolOf(search(e2, map[string]any{})); !ok || !b {
+						sum.direct("equality", e2, nil, "computed numbers of equal value must be equal (swapped)")
+					}
+				}
+			}
+		}
 		f2 := search("[x][?@]", doc)
 		wantF := []any{x}
 		if falseLike(x) {
@@ -288,8 +323,8 @@ func genC18(tier, out string, sum *Summary) {
 	if tier == "thorough" {
 		n = 25000
 	}
-	g1 := &Gen{Funcs: true, Arith: true}
-	g2 := &Gen{Funcs: true, Arith: true, NoRoot: true}
+	g1 := &Gen{Funcs: true, Arith: true, Lets: true}
+	g2 := &Gen{Funcs: true, Arith: true, NoRoot: true, Lets: true}
 	c := &relCtx{sh: &Shards{dir: out, prop: "C18", imports: "Spec.RefAst Checks.Spec", ctype: "speccase", runner: "spec_run", per: 300}, sum: sum, dist: map[string]bool{}}
 	for i := 0; i < n; i++ {
 		e1 := g1.expr(2)
@@ -335,6 +370,13 @@ func genC18(tier, out string, sum *Summary) {
 			sum.direct("closure", t1, doc, "result does not serialise: "+err.Error())
 		}
 		o2 := search(unparse(e2), o1.Value)
+		if modelled(o1.Value) {
+			c.emit(e2, o1.Value, o2, hasEnum(e2))
+		}
+		// the two texts joined by a pipe (a let at the top of e1 then extends over "| e2": same meaning)
+		if oc := search(t1+" | "+unparse(e2), doc); !sameObs(o2, oc, un) && !(o2.Kind == "err" && oc.Kind == "err") && !(un && (orderSensitive(e1) || orderSensitive(e2)) && (buildsObjects(e1) || buildsObjects(e2))) {
+			sum.direct("requery", t1+" | "+unparse(e2), doc, fmt.Sprintf("searching e2 over the result of e1 gives %s but the joined text gives %s", describe(o2), describe(oc)))
+		}
 		op := search(unparse(pipe(e1, e2)), doc)
 		sum.count("second/" + o2.Kind)
 		if !sameObs(o2, op, un) && !(un && (orderSensitive(e1) || orderSensitive(e2)) && (buildsObjects(e1) || buildsObjects(e2))) {
@@ -364,6 +406,32 @@ func genC18(tier, out string, sum *Summary) {
 				}
 			} else if o.Kind != "err" {
 				sum.direct("closure", e, fd, describe(o))
+			}
+		}
+	}
+	// whatever literal Compile accepts must give a result that serialises and can be queried again
+	for _, lit := range []string{"007", "-01.5", "00", "010", "1.", "1.e1", ".5", "+1", "1e", "1e+", "0x1", "01e2", "-", "1_0", "-0", "0e0", "1E400", "1e-400", "[01]", "{\"a\":01}", "[1,]", "[1 2]", "\"\\x\"", "'a'", "nul", "tru", "NaN", "Infinity", "1/2", "1 2", "1e05", "-0.0e-0", "[-]", "[.1]", "{\"a\":+1}", "1e99999", "\"\\ud800\"", "\"\\udc00\\ud800\"", "[1,,2]", "{\"a\":1,}", "{a:1}", "\"a\nb\"", "\"\t\"", " 1 ", "1 ", "true false", "null", "\"\\u00e9\""} {
+		for _, form := range []string{"`%s`", "[`%s`, a]", "{n: `%s`}", "a || `%s`", "[`%s`][0]", "to_array(`%s`)"} {
+			e := fmt.Sprintf(form, lit)
+			o := search(e, map[string]any{"a": json.Number("1")})
+			sum.count("literal-fuzz/" + o.Kind)
+			if o.Kind != "val" {
+				continue
+			}
+			if ok, why := plainResult(o.Value); !ok {
+				sum.direct("closure", e, nil, "result contains a value of Go type "+why)
+			}
+			b, err := json.Marshal(o.Value)
+			if err != nil {
+				sum.direct("closure", e, nil, "result does not serialise: "+err.Error())
+				continue
+			}
+			if o2 := search("@", o.Value); !sameObs(o2, o, false) {
+				sum.direct("closure", e, nil, "the result is not acceptable as input: "+describe(o2))
+			}
+			back := jsonDoc(string(b))
+			if !sameValue(back, o.Value, false) {
+				sum.direct("closure", e, nil, "serialising and decoding the result changes it: "+string(b))
 			}
 		}
 	}
@@ -427,7 +495,11 @@ func genC15(tier, out string, sum *Summary) {
 		if un {
 			sum.count("enumerating")
 		}
-		for rep := 0; rep < 3; rep++ {
+		reps := 3
+		if buildsObjects(e) || un {
+			reps = 8
+		}
+		for rep := 0; rep < reps; rep++ {
 			d2 := rebuild(doc)
 			o := search(text, d2)
 			if !sameObs(first, o, un) {
@@ -443,6 +515,50 @@ func genC15(tier, out string, sum *Summary) {
 		}
 		if first.Kind == "val" && first.Value != nil {
 			c.dist[text] = true
+		}
+	}
+	// order-insensitive aggregates over enumerated members have ONE value, whatever the enumeration order;
+	// the members are chosen so that a different order of additions or comparisons would show
+	aggDocs := []any{
+		map[string]any{"big": json.Number("1e36"), "one": json.Number("1"), "neg": json.Number("-1e36")},
+		map[string]any{"a": json.Number("9999999999999999999999999999999999"), "b": json.Number("0.4"), "c": json.Number("0.4"), "d": json.Number("0.4"), "e": json.Number("-9999999999999999999999999999999999")},
+		map[string]any{"p": json.Number("0.1"), "q": json.Number("0.2"), "r": json.Number("0.3"), "s": json.Number("1e-40"), "t": json.Number("7e33"), "u": json.Number("-7e33")},
+		map[string]any{"x": "b", "y": "a", "z": "c", "w": "a"},
+	}
+	aggExprs := []string{"sum(values(@))", "sum(*)", "avg(values(@))", "sum(items(@)[*][1])", "to_string(sum(values(@)))", "sum(values(@)) == `1`", "avg(*) * `3`", "max(values(@))", "min(*)", "sort(values(@))", "sort(keys(@))", "length(keys(@))", "sum(map(&@, values(@)))", "sum(values(merge(@, @)))", "sum(values(@)) - sum(*)", "sort_by(items(@), &[0])[*][1]", "join(',', sort(keys(@)))", "max_by(items(@), &[0])[0]", "sum(values(@)[?@ > `0`])", "sum(sort(values(@)))"}
+	for _, d := range aggDocs {
+		for _, e := range aggExprs {
+			first := search(e, d)
+			sum.count("aggregate-over-enumeration/" + first.Kind)
+			for rep := 0; rep < 40; rep++ {
+				o := search(e, rebuild(d))
+				if !sameObs(first, o, false) {
+					sum.direct("determinism", e, d, fmt.Sprintf("first evaluation gives %s, a later one on an equal document gives %s", describe(first), describe(o)))
+					break
+				}
+			}
+		}
+	}
+	// the members of a multi-select hash are independent of each other: the order in which they are
+	// evaluated must not show (scopes, variables, errors)
+	hashExprs := []string{"let $outer = `0` in {p: let $a = name in $a, q: $a}", "let $o = `0` in {p: let $a = name in $a, q: not_null($a, 'none'), r: let $b = name in $b, s: $b}",
+		"{a: let $v = `1` in $v, b: let $v = `2` in $v, c: let $w = `3` in $w}", "let $v = `0` in {a: let $v = `1` in $v, b: $v, c: let $v = `2` in $v, d: $v}",
+		"items[*].{p: let $a = name in $a, q: $a}", "let $x = `1` in {a: $x, b: let $y = $x in {c: $y, d: let $z = $y in $z, e: $z}}", "{a: $undefined, b: name}", "let $n = name in {a: $n, b: let $n = `null` in $n, c: $n}"}
+	hdoc := map[string]any{"name": "x", "items": []any{map[string]any{"name": "one"}, map[string]any{"name": "two"}}}
+	for _, e := range hashExprs {
+		first := search(e, hdoc)
+		sum.count("hash-member-order/" + first.Kind)
+		for rep := 0; rep < 60; rep++ {
+			var o Obs
+			if rep%2 == 0 {
+				o = search(e, hdoc)
+			} else {
+				o = search(e, rebuild(hdoc))
+			}
+			if !sameObs(first, o, false) {
+				sum.direct("determinism", e, hdoc, fmt.Sprintf("first evaluation gives %s, a later one gives %s", describe(first), describe(o)))
+				break
+			}
 		}
 	}
 	c.sh.Flush()
